@@ -6,6 +6,7 @@ differential part compares the diff-mode diagnostics of selected blocks with a f
 working tree.
 """
 import json
+import os
 import re
 
 from .. import difflab, run, scenario, udiff
@@ -146,7 +147,13 @@ def one_case(ctx, r, desc):
     for path, ext, op, blocks in files:
         lines, info = render(ext, op, blocks, fillA, tail=(path != no_eol))
         stateA[path] = (lines, info)
-    root = run.make_repo({p: "\n".join(l) + ("" if p == no_eol else "\n") for p, (l, _i) in stateA.items()}, real_git=True, commit=True)
+    base_files = {p: "\n".join(l) + ("" if p == no_eol else "\n") for p, (l, _i) in stateA.items()}
+    # variant: the change consists of nothing but the deletion of another file; with path arguments the matching files are
+    # still validated in full (no block is touched by the diff)
+    only_deletion = r.random() < 0.08
+    if only_deletion:
+        base_files["zz_gone.py"] = "# <block name=\"gone\">\nx = 1\n# </block>\n"
+    root = run.make_repo(base_files, real_git=True, commit=True)
     try:
         # ---- assign edit classes and build state B -------------------------------------------------
         fillB = [0]
@@ -155,7 +162,7 @@ def one_case(ctx, r, desc):
         outside_edit = {}
         for path, ext, op, blocks in files:
             for b in blocks:
-                x = r.random()
+                x = r.random() if not only_deletion else 0.99
                 if x < 0.25:
                     b.cls = INSIDE
                     if r.random() < 0.3 and not b.layout.startswith("shared"):
@@ -205,10 +212,10 @@ def one_case(ctx, r, desc):
                     b.end_suffix = " v%d" % r.randint(2, 9)
                 classes[(path, b.name)] = b.cls
             lines, info = render(ext, op, blocks, fillB, tail=(path != no_eol))
-            if path == no_eol and r.random() < 0.5:
+            if path == no_eol and r.random() < 0.5 and not only_deletion:
                 lines.append(FILLER[ext] % (700000 + len(lines)))      # code appended after the block that used to end the file
             # OUTSIDE edit: change a filler line that adjoins no tag (the middle one of a 3-line pad)
-            if r.random() < 0.4:
+            if r.random() < 0.4 and not only_deletion:
                 cand = [i for i in range(1, len(lines) - 1)
                         if lines[i].startswith(FILLER[ext].split("%")[0]) and lines[i - 1].startswith(FILLER[ext].split("%")[0])
                         and lines[i + 1].startswith(FILLER[ext].split("%")[0])]
@@ -217,13 +224,15 @@ def one_case(ctx, r, desc):
                     lines[i] = FILLER[ext] % (900000 + i)
                     outside_edit[path] = i + 1
             stateB[path] = (lines, info)
-        run.write_files(root, {p: "\n".join(l) + "\n" for p, (l, _i) in stateB.items()})
+        run.write_files(root, {p: "\n".join(l) + ("" if (only_deletion and p == no_eol) else "\n") for p, (l, _i) in stateB.items()})
+        if only_deletion:
+            os.unlink(os.path.join(root, "zz_gone.py"))
         ctxw = r.choice([0, 0, 1, 3, 3, 10])
         diff = run.git(root, "diff", "-U%d" % ctxw)
         if not diff.strip():
             return None
         globs = []
-        if r.random() < 0.4:
+        if r.random() < 0.4 or only_deletion:
             p0 = r.choice([f[0] for f in files])
             globs = [r.choice([p0, "*." + p0.rsplit(".", 1)[1], "**/" + p0.rsplit("/", 1)[-1]])]
         env_l = {}
@@ -257,9 +266,13 @@ def judge(r, files, stateA, stateB, classes, diff, ctxw, globs, lst, res, scan, 
             tagsB = set(range(ib["s1"], ib["s2"] + 1))
             endA = set(range(ia["e1"], ia["e2"] + 1))
             endB = set(range(ib["e1"], ib["e2"] + 1))
-            d_inside = d_start = d_end = d_adj = d_mixed = False
+            d_inside = d_start = d_end = d_adj = d_mixed = d_mixed_end = False
             for g in groups:
                 R, A = set(g.removed), set(g.added)
+                if ((A & inB) or (R & inA)) and ((A & endB) or (R & endA)):
+                    rem, add = sorted(g.removed), sorted(g.added)
+                    if not (len(rem) == len(add) and all((x in endA) == (y in endB) for x, y in zip(rem, add))):
+                        d_mixed_end = True      # content lines and the end-tag line in one group whose sides do not pair up line by line
                 if ((A & inB) or (R & inA)) and ((A & tagsB) or (R & tagsA)):
                     # one change group covers a tag line *and* content lines: which removed line was the tag cannot be told
                     # from the diff, so the outcome is not decided by the statement
@@ -279,7 +292,10 @@ def judge(r, files, stateA, stateB, classes, diff, ctxw, globs, lst, res, scan, 
                 ok = (cls == NONE and not d_start) or (cls != NONE and d_start and one_to_one)
                 v = cls if ok and not d_adj else "dc"
             elif cls == INSIDE:
-                v = INSIDE if (d_inside and not d_start and not d_end) else "dc"
+                # the end-tag line may have been reworded by the same change (words after the tag, inside its comment): still INSIDE,
+                # unless git folded that line and content lines into one group that does not pair up
+                end_ok = (not d_end) or (getattr(b, "end_suffix", "") and not d_mixed_end and not d_adj)
+                v = INSIDE if (d_inside and not d_start and end_ok) else "dc"
             elif cls == BOTH:
                 v = BOTH if (d_inside and d_start and not d_end and not d_mixed) else "dc"
             elif cls == TAGONLY:
